@@ -1,6 +1,7 @@
 """C05 - scalar codecs implement the standard encodings under the CURRENT endianness (engine E-CFG)."""
 from __future__ import annotations
 
+import array
 import copy
 import io
 import random
@@ -17,7 +18,8 @@ RULE = ("case = seeded (1-2 cstruct objects with random initial endianness in {<
         "fields loaded BEFORE the history, each as a compiled and an interpreted twin; history of 10-40 ops: set_endian, "
         "parse/dump of scalars, arrays created before and after switches, whole structures (compiled and interpreted), "
         "LEB128, truncated parses as faults). Values come from a reference encoder (two's complement / IEEE-754 / raw / "
-        "UTF-16 / minimal LEB128, bit-field packing) under the MODEL's current endianness; parse(bytes) must give the value "
+        "UTF-16 / minimal LEB128, bit-field packing; arrays of 255..65537 elements in 4% of the array ops; the same numbers dumped "
+        "from tuples, plain lists and array.arrays of every fitting type code, integers into float array types) under the MODEL's current endianness; parse(bytes) must give the value "
         "and dumps(value) the bytes. evaluations = codec checks. distinct_nontrivial = distinct (type, endian before last "
         "switch, current endian, compiled?, op kind) tuples executed after at least one switch.")
 SPLIT = {"decided_by_search": "endianness switches at arbitrary points of a history take effect for all later reads and writes of all "
@@ -43,6 +45,13 @@ FLT = {"float16": "e", "float": "f", "double": "d"}
 WCH = [0x41, 0x7A, 0xE9, 0x4E2D, 0x20AC, 0xD7FF, 0xE000, 0xFFFD, 0x0100, 0x00FF, 0x1, 0xFEFF, 0xFFFE, 0xFFFF, 0x0, 0x4E00, 0x0041, 0x4100]
 FLOATS = {"float16": [0.0, -0.0, 0.0, 1.0, -2.0, 0.5, 65504.0, -0.25, float("inf")], "float": [0.0, -0.0, 0.0, 1.0, -1.5, 3.0e10, 1.1754943508222875e-38, 16777216.0, float("-inf")],
           "double": [0.0, -0.0, 0.0, 1.0, -1.5, 1e300, 2.2250738585072014e-308, 9007199254740993.0, float("inf")]}
+
+
+def _dumps_or_error(at, value):
+    try:
+        return at.dumps(value)
+    except Exception as ex:  # noqa: BLE001
+        return "raised " + type(ex).__name__
 
 
 def order_of(e):
@@ -176,7 +185,8 @@ def gen_case(rng: random.Random, tier: str):
         elif r < 0.6:
             t = rng.choice(POOL)
             n = rng.randint(1, 4)
-            ops.append({"op": "array", "cs": c, "t": t, "vs": [gen_value(rng, t) for _ in range(n)], "cached": rng.random() < 0.5})
+            ops.append({"op": "array", "cs": c, "t": t, "vs": [gen_value(rng, t) for _ in range(n)], "cached": rng.random() < 0.5,
+                        "cont": rng.randrange(16) if rng.random() < 0.5 else None})
             if rng.random() < 0.04:
                 # boundary sizes: a long array (the 1-4 generated values repeated), crossing block sizes and bulk-path thresholds
                 size = gen.SIZES[ALIAS.get(t, t)]
@@ -337,6 +347,47 @@ def _step(op, worlds, stats, fail):
             d = at.dumps(got)
             if d != b:
                 fail("encode_array", f"{t}[{n}] endian {e} dumps gave {d.hex()} expected {b.hex()}")
+            # the same numbers in OTHER containers (tuple, plain list, array.array of a matching or of another item type):
+            # the encoding depends on the array type, never on the Python type of the container or of its items
+            base = ALIAS.get(t, t)
+            if (base in INTS or base in FLT) and n <= 4096 and op.get("cont") is not None:
+                vals = [x for x in op["vs"]]
+                conts = [("tuple", tuple(got)), ("list of python numbers", [float(x) if base in FLT else int.__index__(x) for x in got])]
+                if base in INTS:
+                    size, signed = INTS[base]
+                    for tc in "bBhHiIlLqQ":
+                        a0 = array.array(tc)
+                        lo, hi = (-(1 << (8 * a0.itemsize - 1)), (1 << (8 * a0.itemsize - 1)) - 1) if tc.islower() else (0, (1 << (8 * a0.itemsize)) - 1)
+                        if all(lo <= v <= hi for v in vals):
+                            conts.append((f"array.array({tc!r})", array.array(tc, vals)))
+                    exp_b = b
+                    for name_, c_ in conts[op["cont"] % len(conts):][:2] + conts[:1]:
+                        d2 = _dumps_or_error(at, c_)
+                        stats.count("evaluations")
+                        stats.count("probe.array_dumped_from_other_container")
+                        if d2 != exp_b:
+                            fail("encode_array", f"{t}[{n}] endian {e}: dumps of the values as {name_} gave {d2 if isinstance(d2, str) else d2.hex()[:200]}, expected {exp_b.hex()[:200]}")
+                else:
+                    conts.append(("array.array('d')", array.array("d", [float(x) for x in got])))
+                    if base == "float":
+                        conts.append(("array.array('f')", array.array("f", [float(x) for x in got])))
+                    exp_b = b
+                    for name_, c_ in conts[op["cont"] % len(conts):][:2]:
+                        d2 = _dumps_or_error(at, c_)
+                        stats.count("evaluations")
+                        stats.count("probe.array_dumped_from_other_container")
+                        if d2 != exp_b and not any(x != x for x in got):
+                            fail("encode_array", f"{t}[{n}] endian {e}: dumps of the values as {name_} gave {d2 if isinstance(d2, str) else d2.hex()[:200]}, expected {exp_b.hex()[:200]}")
+                    # integers handed to a float array type (in a list and in integer-typed array.arrays): their float value
+                    ints = [(-1) ** j * (j + 1 + op["cont"] % 5) for j in range(min(n, 64))]
+                    at2 = cs.resolve(t)[len(ints)]
+                    exp_i = b"".join(encode(t, float(v), e) for v in ints)
+                    for name_, c_ in [("list of ints", ints)] + [(f"array.array({tc!r}) of ints", array.array(tc, ints)) for tc in "bhilq"]:
+                        d2 = _dumps_or_error(at2, c_)
+                        stats.count("evaluations")
+                        if d2 != exp_i:
+                            fail("encode_array", f"{t}[{len(ints)}] endian {e}: dumps of the integers {ints[:6]}.. given as {name_} gave "
+                                                 f"{d2 if isinstance(d2, str) else d2.hex()[:120]}, IEEE-754 of their values is {exp_i.hex()[:120]}")
         elif k == "zarray":
             t = op["t"]
             at = cs.resolve(t)[None]
